@@ -141,6 +141,12 @@ def oracle_file(text, reserved):
         if m:
             declare(m.group(1), "attribute")
             continue
+        ms = re.match(r"(?i)^(?:\S+\s*:\s*)?PROCESS\s*\(([^()]*)\)", l)
+        if ms and ms.group(1).strip().lower() != "all":
+            vis = {n.lower() for reg in stack for n in reg[2]}
+            for u in [t.strip() for t in ms.group(1).split(",")]:
+                if u and u.lower() not in vis:
+                    findings.append(dict(kind="undeclared", name=u, region=f"{stack[-1][0]} {stack[-1][1]}", what=l[:100]))
         m = re.match(r"(?i)^(\S+)\s*:\s*(PROCESS|BLOCK)\b", l)
         if m:
             declare(m.group(1), "label")
@@ -153,6 +159,20 @@ def oracle_file(text, reserved):
         if m:
             declare(m.group(1), "instance label")
             continue
+        # uses that must resolve to a declaration of an open region (independent, deliberately small rule set):
+        # assignment targets, sensitivity lists, rising_edge/falling_edge arguments, `IF (name = '.')` tests
+        used = []
+        mt = re.match(r"^([A-Za-z]\w*)\s*(?:\([^()]*\)\s*)?(<=|:=)", l)
+        if mt and stack[-1][0] in ("architecture", "process", "block"):
+            used.append(mt.group(1))
+        for g in re.findall(r"(?i)\b(?:rising_edge|falling_edge)\s*\(\s*(\w+)\s*\)", l):
+            used.append(g)
+        for g in re.findall(r"(?i)^(?:ELS)?IF\s*\(\s*([A-Za-z]\w*)\s*=\s*'[01]'\s*\)\s*THEN", l):
+            used.append(g)
+        for u in used:
+            vis = {n.lower() for reg in stack for n in reg[2]}
+            if u.lower() not in vis:
+                findings.append(dict(kind="undeclared", name=u, region=f"{stack[-1][0]} {stack[-1][1]}", what=l[:100]))
         m = re.match(r"(?i)^END\s*(\S*)\s*(\S*)\s*;", l)
         if m:
             w = m.group(1).lower()
@@ -274,6 +294,25 @@ def gen_design_cases(rng, reserved, tier):
                         if rng.random() < 0.6:
                             kv[r] = rng.choice(lnames + rng.sample(pool, 2))
                 cases.append(dict(id=f"late{lv}_{nm}_{rep_}", mode="SE"[rep_ % 2], kv=kv, cls=f"late-assigned-lv{lv}", expect="ok"))
+    # clocks whose clock line / reset line is driven by logic, all pin/logic combinations, derived clocks,
+    # registers in root and sub-entities; clock / reset names reserved words and colliding names
+    cnames = ["clk", "Clk", "CLK", "reset", "Reset", "rst", "clk_2", "reset_2", "s_reset", "default_reg", "gated_clk",
+              "logic_rst", "sum", "s_sum", "sub", "sub0", "x_reg", "top"]
+    k = 0
+    for cl in ("pin", "logic"):
+        for rl in ("pin", "logic", "logic2"):
+            for dv in ("0", "1"):
+                for sub in ("0", "1"):
+                    nrep = 2 if tier == "quick" else 8
+                    for rep_ in range(nrep):
+                        kv = {"shape": "clkrst", "cl": cl, "rl": rl, "dv": dv, "sub": sub, "nm": str(rep_ % 2)}
+                        if rep_ > 0:
+                            for r in ["clk", "rst", "clk2", "rst2", "pi0", "pi1", "pi2", "pi3", "pi4", "pi5", "po0", "po1",
+                                      "po2", "sg0", "sg1", "sg2", "sg3", "sg4", "rg0", "ent0", "ent1", "top"]:
+                                if rng.random() < 0.7:
+                                    kv[r] = rng.choice(cnames + rng.sample(pool, 3))
+                        cases.append(dict(id=f"ckr{k}", mode="SEP"[k % 3], kv=kv, cls=f"clkrst-clk_{cl}-rst_{rl[:5]}", expect="ok"))
+                        k += 1
     # tiny cases with predicted port names (tie B)
     ntiny = 30 if tier == "quick" else 200
     for k in range(ntiny):
@@ -581,7 +620,7 @@ def main():
                 dl = [d.lower() for d in declared]
                 changed = 0
                 for role, name in c["kv"].items():
-                    if role in ("shape", "ipc", "lv", "nm"):
+                    if role in ("shape", "ipc", "lv", "nm", "cl", "rl", "dv", "sub"):
                         continue
                     nl = name.lower()
                     hit = [d for d in dl if nl in d]
